@@ -929,10 +929,12 @@ class YAMLPath:
                     ppath += pathsep
                 ppath += "*"
             elif segment_type == PathSegmentTypes.ANCHOR:
+                anchor_name = YAMLPath.ensure_escaped(
+                    str(segment_attrs), pathsep)
                 if add_sep:
-                    ppath += "[&{}]".format(segment_attrs)
+                    ppath += "[&{}]".format(anchor_name)
                 else:
-                    ppath += "&{}".format(segment_attrs)
+                    ppath += "&{}".format(anchor_name)
             elif segment_type == PathSegmentTypes.KEYWORD_SEARCH:
                 ppath += str(segment_attrs)
             elif (segment_type == PathSegmentTypes.SEARCH
